@@ -52,6 +52,14 @@ def _run(inp):
     try:
         cert = HSMCertificate(inp["cert"]) if False else __import__("admin.certificate", fromlist=["x"]).HSMCertificateV2(inp["cert"])
         root = HSMCertificateV2ElementX509.from_pem(inp["root_pem"], "sgx_root", "sgx_root")
+        if inp.get("earlier_root_pem"):
+            # the same loaded certificate was validated before, against another root of trust (and clock):
+            # nothing of that verdict may survive into this one
+            try:
+                cert.validate_and_get_values(
+                    HSMCertificateV2ElementX509.from_pem(inp["earlier_root_pem"], "sgx_root", "sgx_root"))
+            except Exception:
+                pass
         res = cert.validate_and_get_values(root)
         out = {}
         for t, v in res.items():
@@ -202,6 +210,14 @@ def gen(tier, rng):
             inp["clock_abs_us"] = abs_us
             inp["clock_offset_s"] = 0
             kind += "+edge"
+        if i % 7 == 5:
+            # validated twice: first against the chain's own root, then against the root under test
+            # (for a genuine chain: a foreign root, which must not be accepted)
+            inp["earlier_root_pem"] = m.certs[0].public_bytes(serialization.Encoding.PEM).decode()
+            if kind.startswith("genuine"):
+                root = sgxgen.Material(rng, depth=1).certs[0]
+                inp["root_pem"] = root.public_bytes(serialization.Encoding.PEM).decode()
+            kind += "+revalidated"
         try:
             inp.update(model_input(cert, root, inp["clock_offset_s"], abs_us))
         except Exception:
